@@ -67,6 +67,8 @@ type exec struct {
 	varsMemo     map[*smt.Term]map[*smt.Term]struct{}
 	noSlice      bool
 	lenVars      map[*smt.Term]bool
+	letterOK     map[*smt.Term]bool
+	braceOK      map[*smt.Term]bool
 	floatErrVars int
 
 	known    []knownRegion
